@@ -5,7 +5,7 @@
 import Nstd.Future.Safety7
 set_option linter.unusedSimpArgs false
 set_option linter.unusedVariables false
-namespace Nstd.Future
+namespace Nstd.Future.Safe
 
 structure PInv (s : State) : Prop where
   p1 : poolAlive s → s.tp = true → s.pool ≠ none
@@ -266,4 +266,4 @@ theorem no_fault_of_workerPool {cfg : Config} (hW : ∀ s, Reach cfg s → Worke
   | init => rfl
   | step t hr hs ih => exact fault_step hr (hW _ hr) ih hs
 
-end Nstd.Future
+end Nstd.Future.Safe
